@@ -67,6 +67,11 @@ void vp_cover_hit(const char *msg)
     fprintf(stderr, "VP-REPLAY: COVER HIT: %s\n", msg);
 }
 
+void vp_oracle_mismatch(const char *msg)
+{
+    fprintf(stderr, "VP-REPLAY: ORACLE-MISMATCH: %s\n", msg);
+}
+
 uint8_t vp_u8(void) { return (uint8_t)vp_next(); }
 uint16_t vp_u16(void) { return (uint16_t)vp_next(); }
 uint32_t vp_u32(void) { return (uint32_t)vp_next(); }
